@@ -283,4 +283,18 @@ theorem pstuck_of_rest (p : PSt) (hl : p.s.lock = none)
     | (simp_all; done)
     | grind
 
+theorem n_of_log (n : Nat) (log : List Ev) (s : St) (h : runLog step (init n) log = some s) : s.n = n := by
+  have : ∀ (log : List Ev) (s0 s : St), runLog step s0 log = some s → s.n = s0.n := by
+    intro log
+    induction log with
+    | nil => intro s0 s h; simp at h; rw [h]
+    | cons e es ih =>
+      intro s0 s h
+      simp only [runLog] at h
+      cases hs : step s0 e with
+      | none => simp [hs] at h
+      | some s1 => simp only [hs] at h; rw [ih s1 s h, step_n _ _ _ hs]
+  exact this log _ s h
+
+
 end PikaVerif.Mtx
